@@ -128,7 +128,6 @@ def update_menu(names):
         a_good, a_bad = HIST_VALUES[n][0], HIST_VALUES[n][2]
         b_good, b_bad = HIST_VALUES[n2][0], HIST_VALUES[n2][2]
         out += [((n, a_good), (n2, b_good)), ((n, a_good), (n2, b_bad)), ((n, a_bad), (n2, b_good))]
-        out += [((n2, b_good), (n, HIST_VALUES[n][1]))]
     return out
 
 
@@ -262,8 +261,9 @@ def h_typed_single(X):
 
 # --- config round trip ---------------------------------------------------------------------------
 TOKENS = [":", "#", "-", "'", '"', "{", "}", "[", "]", ",", "&", "*", "!", "|", ">", "%", "@", " ", "\n",
-          "yes", "no", "null", "~", "1e3", "é"]
-TOKENS_EXT = TOKENS + ["\t", "\r", "\\", "?", "=", "true", "0x1f", "012", ".inf", "<<", "\x85", "\u2028", "\ufeff", "\x07", "\U0001f600", "a"]
+          "yes", "no", "null", "~", "1e3", "é", "\x85"]
+TOKEN_CLASS = {"\x85": "NEL", "\u2028": "LS", "\ufeff": "BOM", "\x07": "BEL", "\r": "CR", "\t": "TAB", "\n": "LF"}
+TOKENS_EXT = TOKENS + ["\t", "\r", "\\", "?", "=", "true", "0x1f", "012", ".inf", "<<", "\u2028", "\ufeff", "\x07", "\U0001f600", "a"]
 NONSTR = [("b", True), ("i", 0), ("i", -1), ("i", 10 ** 12), ("oi", 0), ("oi", 5), ("s", ""), ("os", ""), ("os2", None), ("seq", ["", ""]), ("seq2", []),
           ("seq", ("t", "u"))]
 
@@ -302,15 +302,18 @@ def h_roundtrip(X, max_tokens, targets, tokens, late_menu, nonstr):
     except TypeError as e:
         X.fail(f"C44/roundtrip/type-changed/{KIND[name]}", f"{e} :: " + ctx)
     got = snapshot(o2)
+    # key = option kind + which non-printing characters the value contains (a different character class is a different finding)
+    flat = value if isinstance(value, str) else "".join(x for x in value if isinstance(x, str)) if isinstance(value, (list, tuple)) else ""
+    cls = "+".join(sorted({TOKEN_CLASS[ch] for ch in flat if ch in TOKEN_CLASS})) or "printable"
     for k in want:
-        X.check(norm(got[k]) == norm(want[k]) and type(norm(got[k])) is type(norm(want[k])), f"C44/roundtrip/value-changed/{KIND[k]}",
+        X.check(norm(got[k]) == norm(want[k]) and type(norm(got[k])) is type(norm(want[k])), f"C44/roundtrip/value-changed/{KIND[k]}/{cls}",
                 f"option {k}: saved {want[k]!r}, loaded {got[k]!r} :: " + ctx)
     X.reach("end")
 
 
 def obligations(tier):
     quick = tier == "quick"
-    small = ["b", "i", "seq"]
+    small = ["b", "i", "seq"] if quick else ["i", "seq"]
     full = ["b", "i", "s", "os", "oi", "seq"]
     n_small, n_full = (3, 2) if quick else (4, 3)
     tok = TOKENS if quick else TOKENS_EXT
@@ -318,7 +321,7 @@ def obligations(tier):
         Symx("typed-single-update", h_typed_single,
              bounds=f"6 options (one per type) x {len(CROSS)} values of every type (cross-type menu), alone or preceded in the same update by a valid assignment to another option",
              encoded=ENCODED, must_reach=["valid", "wrong-typed"]),
-        Symx("history-3-options", lambda X: h_history(X, n_small, small),
+        Symx("history-few-options", lambda X: h_history(X, n_small, small),
              bounds=f"every history of {n_small} updates over options {small}: {len(update_menu(small))} update variants (1-2 assignments, values {[HIST_VALUES[n] for n in small]}, last of each = wrong type) "
                     "x every accept/reject predicate of the rejecting listener over the states shown to it",
              encoded=ENCODED, must_reach=["end", "rejected", "accepted", "wrong-typed"], parallel_depth=2),
